@@ -105,7 +105,7 @@ type c04Side struct {
 	pool []pongo2.Context
 }
 
-func c04Compile(sp *c04Spec, disk []*DiskSpec) (*c04Side, string) {
+func c04Compile(sp *c04Spec, disk []*DiskSpec, reuse bool) (*c04Side, string) {
 	w := NewWorld(disk)
 	old := SetCurWorld(w)
 	defer SetCurWorld(old)
@@ -117,7 +117,11 @@ func c04Compile(sp *c04Spec, disk []*DiskSpec) (*c04Side, string) {
 	case "FromString":
 		s.tpl, err = s.set.FromString(sp.Prog.Files[sp.Prog.Main])
 	case "FromBytes":
-		s.tpl, err = s.set.FromBytes([]byte(sp.Prog.Files[sp.Prog.Main]))
+		buf := []byte(sp.Prog.Files[sp.Prog.Main])
+		s.tpl, err = s.set.FromBytes(buf)
+		if reuse {
+			reuseBuffer(buf) // the long-lived side's caller reuses its buffer; the reference's does not
+		}
 	default:
 		s.tpl, err = s.set.FromFile(sp.Prog.Main)
 	}
@@ -178,7 +182,7 @@ func (c04Checker) Run(tp *Tapes, opt RunOpt) *Outcome {
 	// runHistory executes hist on one long-lived template and compares every step
 	// with a fresh compile. It returns false when the program had to be discarded.
 	runHistory := func(hist []c04Exec, label string) bool {
-		sys, cerr := c04Compile(sp, disk)
+		sys, cerr := c04Compile(sp, disk, true)
 		if cerr != "" {
 			out.Discarded = true
 			out.probe("compile_failed")
@@ -220,7 +224,7 @@ func (c04Checker) Run(tp *Tapes, opt RunOpt) *Outcome {
 			out.dig(got.String())
 			out.Execs++
 			fired := mergeFired(sys.w)
-			ref, rerr := c04Compile(sp, disk)
+			ref, rerr := c04Compile(sp, disk, false)
 			if rerr != "" {
 				out.HarnessErr = "reference compile failed although the system compile succeeded: " + rerr
 				return false
@@ -299,7 +303,7 @@ func (c04Checker) Run(tp *Tapes, opt RunOpt) *Outcome {
 
 	// ---- per-program enumeration: every single fault position as e1, then a fault-free e2 ----
 	if len(out.Violations) == 0 {
-		probe, cerr := c04Compile(sp, disk)
+		probe, cerr := c04Compile(sp, disk, false)
 		if cerr == "" {
 			d := probe.exec(sp, 0, c04Exec{Entry: EpExecuteWriterUnbuffered}, probe.w.BuildCtx(sp.Pool[0]))
 			K, J := d.Cbs, d.WCalls
